@@ -151,6 +151,7 @@ func (e *Encoder) buildResource(builder *rdfdescription.ResourceListBuilder, res
 	for _, statement := range resource.GetResourceStatements() {
 		var statementObject any
 		var predicate rdf.IRI
+		var typeValue bool
 
 		switch statementT := statement.(type) {
 		case rdfdescription.AnonResourceStatement:
@@ -176,6 +177,8 @@ func (e *Encoder) buildResource(builder *rdfdescription.ResourceListBuilder, res
 				}
 
 				if predicate == rdfiri.Type_Property {
+					// only an IRI can be a value of @type; any other object of rdf:type is written as a property
+					typeValue = true
 					statementObject = wrapID
 				} else {
 					statementObject = map[string]any{
@@ -244,7 +247,7 @@ func (e *Encoder) buildResource(builder *rdfdescription.ResourceListBuilder, res
 
 		var key string = string(predicate)
 
-		if predicate == rdfiri.Type_Property {
+		if typeValue {
 			key = "@type"
 		} else if pr, ok := e.prefixes.CompactPrefix(string(predicate)); ok {
 			key = pr.String()
